@@ -29,7 +29,7 @@ func init() {
 
 func runC20(c *Ctx) {
 	p := c.Progs["mod"]
-	c.Rule("C20.Y", "compatibility with the party that is not changed with this code: the agent starts only the three exchanges every proxy build tells apart (a shutdown notice is a list poll to an older proxy)", 3)
+	c.Rule("C20.Y", "compatibility with the party that is not changed with this code: the agent starts only the three exchanges every proxy build tells apart (a shutdown notice is a list poll to an older proxy)", 2)
 	ruleAgentProxyExchanges(c, p, "C20.Y")
 	c.Rule("C20.G", "health gate before any polling", 7)
 	c.Rule("C20.U", "consecutive-failure counter and threshold", 7)
